@@ -1,14 +1,18 @@
 ----------------------------- MODULE VcfHistory -----------------------------
 (* Histories of whole commands over one variant file (C09, C13).
 
-   One action per command:  Phase(tag, T, P)  -- `whatshap phase --tag=tag --sample T...` whose
-   run produced the phasing P (for each target sample and record either NoPhase or a statement
-   [block, al]);  Unphase  -- `whatshap unphase`.  The file is the abstract VCF of VcfModel.
+   One action per command:  Phase(tag, T, snvs, P)  -- `whatshap phase --tag=tag --sample T...
+   [--only-snvs]` whose run produced the phasing P (for each target sample and record either
+   NoPhase or a statement [block, al]);  Unphase  -- `whatshap unphase`.  The file is the abstract
+   VCF of VcfModel.  A run does not support every record: multi-ALT records and records at a
+   duplicated position never (NeverSites), indels not under --only-snvs (IndelSites); P has no
+   statement there, yet the output must not state anything else for a target sample at ANY record.
 
    The encoders are the ones the VCF conventions prescribe (VcfModel!ClearPhase, Encode).  With
-   Faithful = FALSE the Phase action instead mirrors what whatshap/vcf.py does on the pinned
-   tree (existing phase only cleared when writing PS, and then only the GT/'|' part): TLC then
-   finds the NoStalePhase / RoundTrip counterexamples -- the negative control of this model.
+   Faithful = FALSE the Phase action instead mirrors what whatshap/vcf.py did before commit d882ab3
+   (existing phase only cleared when writing PS, and then only the GT/'|' part) and leaves records the
+   run does not support untouched: TLC then finds the NoStalePhase / RoundTrip counterexamples --
+   the negative control of this model.
 
    Design-level claims checked by TLC over all histories (state graph is finite):
      C09  RoundTrip, NoStalePhase, DecodesCleanly, SampleClean, TagEquivalence
@@ -16,7 +20,12 @@
 EXTENDS VcfModel, TLC
 CONSTANTS NS,            \* number of samples
           Inits,         \* set of initial files
-          Faithful,      \* TRUE: conventions; FALSE: transcription of the pinned code
+          Faithful,      \* TRUE: conventions; FALSE: transcription of a wrong writer (negative control)
+          ClearAll,      \* TRUE: old statements of target samples are removed at every record; FALSE: only at the
+                         \* records the run supports (second negative control: the seeded change of round 2)
+          IndelSites,    \* record indices that are not SNVs (skipped under --only-snvs)
+          NeverSites,    \* record indices no run supports (multi-ALT, duplicated position)
+          SnvsOpts,      \* values of the --only-snvs option that are explored (subset of BOOLEAN)
           Depth          \* bound on the history length (emission only)
 VARIABLES f, f0, last, hist
 vars == <<f, f0, last, hist>>
@@ -26,16 +35,17 @@ Sites == DOMAIN (CHOOSE x \in Inits : TRUE).recs
 PosOf(i) == 10 * i                     \* 1-based position of record i; a block is named by its leftmost position
 
 Call(g, s, i) == g.recs[i].calls[s]
+Supported(snvs) == (Sites \ NeverSites) \ (IF snvs THEN IndelSites ELSE {})
 HetSites(g, s) == { i \in Sites : IsHet(Call(g, s, i)) /\ FullyCalled(Call(g, s, i)) /\ Len(Call(g, s, i).gt) = 2 }
 
 (* all phasings a run can report for sample s of file g: a subset of the heterozygous sites,
    partitioned into blocks named by their leftmost member, with an allele order per site *)
 Labelings(H) == { lab \in [H -> H] : \A x \in H : lab[x] <= x /\ lab[lab[x]] = lab[x] }
-PhasingsOf(g, s) ==
+PhasingsOf(g, s, snvs) ==
     UNION { UNION { { [i \in Sites |-> IF i \in H THEN [block |-> PosOf(lab[i]), al |-> o[i]] ELSE NoPhase]
                       : o \in [H -> {<<0, 1>>, <<1, 0>>}] }
                     : lab \in Labelings(H) }
-            : H \in SUBSET HetSites(g, s) }
+            : H \in SUBSET (HetSites(g, s) \cap Supported(snvs)) }
 
 (* --------------------------------------------------------------------- the commands *)
 \* what the pinned code does before writing (vcf.py:_remove_existing_phasing): only for tag PS, only GT
@@ -47,31 +57,32 @@ CodeEncode(tag, c, p) ==
     ELSE IF tag = "PS" THEN [c EXCEPT !.gt = p.al, !.ph = TRUE, !.ps = p.block]
     ELSE [c EXCEPT !.hp = [k \in 1..2 |-> <<p.block, p.al[k] + 1>>]]
 
-PhaseCall(tag, c, p) == IF Faithful THEN Encode(tag, ClearPhase(c), p) ELSE CodeEncode(tag, CodeClear(tag, c), p)
-PhaseFile(g, tag, T, P) ==
+PhaseCall(tag, c, p, sup) == IF Faithful THEN (IF sup \/ ClearAll THEN Encode(tag, ClearPhase(c), p) ELSE c)
+                             ELSE IF sup THEN CodeEncode(tag, CodeClear(tag, c), p) ELSE c
+PhaseFile(g, tag, T, snvs, P) ==
     [g EXCEPT !.recs = [i \in DOMAIN g.recs |->
         [g.recs[i] EXCEPT !.calls = [s \in DOMAIN g.recs[i].calls |->
-            IF s \in T THEN PhaseCall(tag, g.recs[i].calls[s], P[s][i]) ELSE g.recs[i].calls[s]]]]]
+            IF s \in T THEN PhaseCall(tag, g.recs[i].calls[s], P[s][i], i \in Supported(snvs)) ELSE g.recs[i].calls[s]]]]]
 
 Tags == {"PS", "HP"}
 Targets == (SUBSET Samples) \ {{}}
-RECURSIVE PhasingChoices(_, _)
-PhasingChoices(g, T) ==          \* functions T -> phasing of that sample
+RECURSIVE PhasingChoices(_, _, _)
+PhasingChoices(g, T, snvs) ==          \* functions T -> phasing of that sample
     IF T = {} THEN { << >> }
     ELSE LET s == CHOOSE x \in T : TRUE IN
-         { (s :> p) @@ r : p \in PhasingsOf(g, s), r \in PhasingChoices(g, T \ {s}) }
+         { (s :> p) @@ r : p \in PhasingsOf(g, s, snvs), r \in PhasingChoices(g, T \ {s}, snvs) }
 
-PhaseStep(tag, T, P) == /\ f' = PhaseFile(f, tag, T, P)
-                        /\ last' = [op |-> "phase", tag |-> tag, T |-> T, P |-> P]
+PhaseStep(tag, T, snvs, P) == /\ f' = PhaseFile(f, tag, T, snvs, P)
+                              /\ last' = [op |-> "phase", tag |-> tag, T |-> T, P |-> P]
 UnphaseStep == /\ f' = UnphaseFile(f)
                /\ last' = [op |-> "unphase", tag |-> "", T |-> {}, P |-> << >>]
-Phase(tag, T, P) == PhaseStep(tag, T, P) /\ hist' = hist
+Phase(tag, T, snvs, P) == PhaseStep(tag, T, snvs, P) /\ hist' = hist
 Unphase == UnphaseStep /\ hist' = hist
 
 Init == f \in Inits /\ f0 = f /\ last = [op |-> "init", tag |-> "", T |-> {}, P |-> << >>] /\ hist = << >>
 Next == /\ f0' = f0
         /\ \/ Unphase
-           \/ \E tag \in Tags, T \in Targets : \E P \in PhasingChoices(f, T) : Phase(tag, T, P)
+           \/ \E tag \in Tags, T \in Targets, snvs \in SnvsOpts : \E P \in PhasingChoices(f, T, snvs) : Phase(tag, T, snvs, P)
 Spec == Init /\ [][Next]_vars
 
 (* --------------------------------------------------------------------- C09 *)
@@ -95,9 +106,9 @@ SampleClean == \A s \in Samples :
 \* both tags written from the same run decode to the same statements
 \* (PhaseFile acts call by call, so single-sample target sets cover the claim)
 Singles == { {s} : s \in Samples }
-TagEquivalence == \A T \in Singles : \A P \in PhasingChoices(f, T) :
+TagEquivalence == \A T \in Singles, snvs \in SnvsOpts : \A P \in PhasingChoices(f, T, snvs) :
     \A s \in T : \A i \in Sites :
-        DecPS(Call(PhaseFile(f, "PS", T, P), s, i)) = DecHP(Call(PhaseFile(f, "HP", T, P), s, i))
+        DecPS(Call(PhaseFile(f, "PS", T, snvs, P), s, i)) = DecHP(Call(PhaseFile(f, "HP", T, snvs, P), s, i))
 
 (* --------------------------------------------------------------------- C13 *)
 UnphaseOK == UnphaseRel(f, UnphaseFile(f))
@@ -105,6 +116,6 @@ Idempotent == UnphaseFile(UnphaseFile(f)) = UnphaseFile(f)
 \* along any sequence of phase / unphase commands the unphased records stay those of the original
 UnphaseIsConstant == UnphaseFile(f).recs = UnphaseFile(f0).recs
 \* the literal statement: unphasing a phased file = unphasing the file that was phased
-CommutesWithPhase == \A tag \in Tags, T \in Singles : \A P \in PhasingChoices(f, T) :
-                         UnphaseFile(PhaseFile(f, tag, T, P)).recs = UnphaseFile(f).recs
+CommutesWithPhase == \A tag \in Tags, T \in Singles, snvs \in SnvsOpts : \A P \in PhasingChoices(f, T, snvs) :
+                         UnphaseFile(PhaseFile(f, tag, T, snvs, P)).recs = UnphaseFile(f).recs
 =============================================================================
